@@ -457,7 +457,7 @@ def explore_threads(case):
                 alone = [fa(), fb()]
             except NotImplementedError:
                 continue
-            for choices, results, npts, capped in threads.explore([fa, fb], ("cyecca/lie/", "cyecca/symbolic.py"), 1 if case["tier"] == "quick" else 2, max_runs=(1500 if case["tier"] == "quick" else 30000)):
+            for choices, results, npts, capped in threads.explore([fa, fb], ("cyecca/lie/", "cyecca/symbolic.py"), 1 if case["tier"] == "quick" else 2, max_runs=(1500 if case["tier"] == "quick" else 4000)):
                 if capped:
                     res.counters["thread_schedules_capped"] += 1
                     break
